@@ -339,7 +339,8 @@ def run(ctx):
                  'MUST (present / left out / placement) verdict. Family C: namespaces scanned without explicit symbol '
                  'prefixes (%s): every subset of an %d-item API spelled with the documented default prefix, all orders '
                  'and dump modes; likewise two configurations of one namespace with nested prefixes (Foo+FooExt / foo+foo_ext, '
-                 'both listing orders) over every subset of an %d-item API; the namespace c:symbol-prefixes / c:identifier-prefixes attributes are compared too '
+                 'both listing orders) over every subset of an %d-item API, and accept-unprefixed mode next to an included '
+                 'namespace with empty C prefixes (deps/c04/xdep-1.0.gir) over every subset of a 10-item API; the namespace c:symbol-prefixes / c:identifier-prefixes attributes are compared too '
                  '(in every family)'
                  % (b['K_ALL'], b['K_CORE'], len(CONTEXT_IDS), b['KB'], len(configs),
                     ', '.join('%s->%s' % x for x in M.DEFAULT_PREFIX_NAMES), len(M.DEFAULT_PREFIX_MENU), len(M.NESTED_MENU)),
@@ -348,7 +349,8 @@ def run(ctx):
                     'menu_full': len(full), 'menu_core': len([i for i in full if i['core']]),
                     'menu_per_config': {c['id']: len(M.config_menu(c)) for c in M.CONFIGS},
                     'dump_modes': DUMPS, 'family_C_configurations': [c['id'] for c in M.SMALL_CONFIGS],
-                    'family_C_menus': {'default-*': M.DEFAULT_PREFIX_MENU, 'nested-*': M.NESTED_MENU}})
+                    'family_C_menus': {'default-*': M.DEFAULT_PREFIX_MENU, 'nested-*': M.NESTED_MENU,
+                                       'unprefixed-xdep': M.XDEP_MENU}})
     ctx.set(calibration=calibrate())
     sigs = Sigs()
     # big partitions first (family A, small first index), then seed rotation (dispatch order only)
